@@ -275,6 +275,12 @@ fn check_pair_in<R: Cmp, G: GraphLike + PartialEq, H: GraphLike>(
             Ok(None) => obs.skip("oracle-too-big"),
             Err(e) => return Err(format!("{name}: adjoint is malformed: {e}")),
         }
+        // the in-place form is the same operation
+        let mut inpl = g.clone();
+        guarded(&format!("{name}: adjoint (in place)"), || inpl.adjoint())?;
+        if inpl != a {
+            return Err(format!("{name}: adjoint() in place differs from to_adjoint()"));
+        }
         let aa = a.to_adjoint();
         if aa != g {
             // approximate scalars may differ in flags only; compare tensors then
@@ -753,6 +759,27 @@ fn check_identity_in<G: GraphLike>(c: &IdCase, name: &str, obs: &mut Obs) -> Res
             outs2.push(b2);
             extra = true;
         }
+        5 | 6 => {
+            // closed junk next to the wires: a pair of joined spiders, or 1-4 spiders with
+            // generated kinds, phases and edges (any such component makes it "something else")
+            let k = if c.defect == 5 { 2 } else { 1 + (c.pos as usize % 4) };
+            let vs: Vec<V> = (0..k)
+                .map(|j| {
+                    let ty = if (c.pos >> (j + 2)) & 1 == 1 { VType::X } else { VType::Z };
+                    let v = g.add_vertex(ty);
+                    g.set_phase(v, quizx::phase::Phase::new(num::Rational64::new(((c.pos >> j) & 3) as i64, 2)));
+                    v
+                })
+                .collect();
+            for a in 0..k {
+                for b in (a + 1)..k {
+                    if c.defect == 5 || (c.pos >> (a * 3 + b)) & 1 == 1 {
+                        g.add_edge_with_type(vs[a], vs[b], if (c.pos >> (a + b)) & 1 == 1 { EType::H } else { EType::N });
+                    }
+                }
+            }
+            extra = true;
+        }
         _ => {}
     }
     g.set_inputs(ins2);
@@ -907,7 +934,7 @@ pub fn def(ctx: &Ctx) -> PropertyDef {
                         2 => Just(vec![]),
                         1 => prop::collection::vec(any::<bool>(), 0..=4)
                     ],
-                    prop_oneof![5 => Just(0u8), 1 => Just(1u8), 1 => Just(2u8), 1 => Just(3u8), 1 => Just(4u8)],
+                    prop_oneof![5 => Just(0u8), 1 => Just(1u8), 1 => Just(2u8), 1 => Just(3u8), 1 => Just(4u8), 1 => Just(5u8), 1 => Just(6u8)],
                     prop::collection::vec(any::<u16>(), 0..=8),
                     any::<bool>(),
                     any::<u16>(),
